@@ -23,6 +23,15 @@ BCJ_NAMES = ("x86", "powerpc", "ia64", "arm", "armthumb", "sparc", "arm64", "ris
 STARVE_BOUND = {"stream_decoder_mt": 8, "stream_encoder_mt": 8}
 
 
+def ok_bound_for(entry, args):
+    """How many consecutive LZMA_OK-without-progress calls are legitimate: none beyond the first for single-threaded
+    coders (lzma_code() turns the second into LZMA_BUF_ERROR); a threaded coder with a timeout may report 'nothing yet'
+    (LZMA_TIMED_OUT -> LZMA_OK) as long as its workers are busy."""
+    if entry in STARVE_BOUND:
+        return 100000 if (args or {}).get("timeout") else 8
+    return 2
+
+
 def dig(b):
     return "%d:%s" % (len(b), hashlib.sha1(b).hexdigest()[:20])
 
@@ -141,7 +150,7 @@ def make_with_history(entry, a, data, alloc=None, prior=None):
         pm = make(pe, pa, pdata, alloc, coder=c)
         if pm.ret == lz.OK:
             pb = Bufs(pm.data, max(8192, 16 * len(pm.data) + 8192))
-            drive(pe, pm, pb, [], [], 0, 0)
+            drive(pe, pm, pb, [], [], 0, 0, ok_bound=ok_bound_for(pe, pa))
         L = lz.L()
         if pm.index_out is not None and pm.index_out.value:
             L.lzma_index_end(pm.index_out, ap)
@@ -299,6 +308,7 @@ def drive(entry, m, bufs, ins, outs, irep=0, orep=0, rec=None, tail=0, xw=False,
     # offered (also with input AND output space available: a coder stopped by an internal limit).  lzma_code() turns the
     # second one into LZMA_BUF_ERROR; only a threaded coder waiting with a timeout may legitimately repeat LZMA_OK.
     ok_stall = 0
+    stall_t0 = 0.0
     if ok_bound is None:
         ok_bound = 2 if entry not in STARVE_BOUND else 8
     notif_stall = 0
@@ -373,7 +383,10 @@ def drive(entry, m, bufs, ins, outs, irep=0, orep=0, rec=None, tail=0, xw=False,
         if uin or uout:
             notif_stall = 0
         ok_stall = ok_stall + 1 if (ret == lz.OK and uin == 0 and uout == 0) else 0
-        if ok_stall >= ok_bound and not terminal:
+        if ok_stall == 1:
+            stall_t0 = time.time()
+        # (a threaded coder with a timeout: "nothing yet" for at most 15 s of wall time)
+        if (ok_stall >= ok_bound or (ok_stall > 50 and time.time() - stall_t0 > 15)) and not terminal:
             problems.append("starve")
             break
         if ret == lz.OK:
@@ -504,7 +517,7 @@ def run_subject(sub, budget):
         bufs = Bufs(m.data, cap if cap is not None else (sub.get("cap") or max(4096, 12 * len(m.data) + 4096)))
         ins, outs, irep, orep = expand_plan(plan, bufs.n, one["olen"] if one else 0)
         r = drive(entry, m, bufs, ins, outs, irep, orep, rec, tail, xw=bool(plan.get("xw")), pause=plan.get("pause", 0.0),
-                  ok_bound=400 if (entry in STARVE_BOUND and args.get("timeout")) else None)
+                  ok_bound=ok_bound_for(entry, args))
         o = observe(m, bufs, r)
         probs = list(r["problems"])
         if not bufs.intact():
@@ -594,7 +607,7 @@ def run_group(g):
             continue
         bufs = Bufs(m.data, max(4096, 2 * len(m.data) + 8192))
         ins, outs, irep, orep = expand_plan(cfg.get("plan", {"k": "oneshot"}), bufs.n, 0)
-        r = drive(g["entry"], m, bufs, ins, outs, irep, orep)
+        r = drive(g["entry"], m, bufs, ins, outs, irep, orep, ok_bound=ok_bound_for(g["entry"], a))
         out = bufs.ob.data(r["op"])
         text = getattr(m.owned_filters, "_text", None)
         unmake(m)
